@@ -273,7 +273,7 @@ def model_records(case, work, C):
     body = 'Eval vm_compute in (srv_records %s).\n' % case_coq(case, [])
     res = C.run_many_cases(work, [('dm14srv_full', HEADER + body)], timeout=120, par=1)
     rc, out = res['dm14srv_full']
-    return C.parse_nat_list(out) if rc == 0 else None, out
+    return (C.parse_list_list(out) if rc == 0 else None), out
 
 
 def stage(out, tier, rng, work, C, n_quick=150, n_thorough=2500):
